@@ -23,22 +23,29 @@ pub const DOCS: &[&str] = &[
     "{\"com.example.service.alpha.timeout\":100,\"com.example.service.beta0.timeout\":200,\"com.example.service.gamma.timeout\":300,\"k\":[1],\"a_member_name_longer_than_thirty_bytes\":[\"v\"],\"another_member_name_longer_than_thirty_bytes\":\"a string value kept in the arena\"}",
 ];
 
+/// (appended to DOCS below through `start_doc`: the only arena-backed member sits under a long name)
+pub const LONG_NAME_DOCS: &[&str] = &[
+    "{\"id\":7,\"configuration_of_the_primary_replica_set\":{\"hosts\":[\"a\",\"b\"],\"port\":27017},\"ok\":true}",
+    "{\"a_member_name_longer_than_thirty_bytes\":\"the only string value of this document, kept in the arena\",\"n\":1}",
+    "[{\"configuration_of_the_primary_replica_set\":[1,2]},3]",
+];
+
 /// documents parsed in raw-number mode (`use_rawnumber`): number nodes keep their literal
 pub const RAW_DOCS: &[&str] = &["[1.50,12.50,{\"n\":0.10,\"big\":12345678901234567890123,\"k\":[1e2]},-0.0,7]", "{\"a\":1.0,\"b\":[2.00,3],\"c\":{\"d\":4e0}}"];
 
 /// start document number `i` of DOCS ++ RAW_DOCS with its model
 pub fn start_doc(i: usize) -> (Value, M, &'static str) {
-    let i = i % (DOCS.len() + RAW_DOCS.len());
-    if i < DOCS.len() {
-        let d = DOCS[i];
+    let i = i % N_START_DOCS;
+    if i < DOCS.len() + LONG_NAME_DOCS.len() {
+        let d = if i < DOCS.len() { DOCS[i] } else { LONG_NAME_DOCS[i - DOCS.len()] };
         (sonic_rs::from_str(d).unwrap(), refjson::parse(d.as_bytes()).unwrap().0.model(d.as_bytes(), false), d)
     } else {
-        let d = RAW_DOCS[i - DOCS.len()];
+        let d = RAW_DOCS[i - DOCS.len() - LONG_NAME_DOCS.len()];
         let v: Value = sonic_rs::Deserializer::from_str(d).use_rawnumber().deserialize().unwrap();
         (v, refjson::parse(d.as_bytes()).unwrap().0.model(d.as_bytes(), false), d)
     }
 }
-pub const N_START_DOCS: usize = DOCS.len() + RAW_DOCS.len();
+pub const N_START_DOCS: usize = DOCS.len() + LONG_NAME_DOCS.len() + RAW_DOCS.len();
 pub const N_UNIVERSE: usize = 30;
 
 pub fn universe(i: usize) -> (Value, M) {
@@ -138,7 +145,7 @@ fn obj_remove(v: &mut Vec<(String, M)>, k: &str) -> Option<M> {
     Some(v.remove(i).1)
 }
 
-const KEYS: &[&str] = &["a", "b", "c", "k", "k1", "k5", "new", "é\"", "", "x", "d", "n", "com.example.service.alpha.timeout", "com.example.service.gamma.timeout", "com.example.service.delta.timeout", "a_member_name_longer_than_thirty_bytes", "big"];
+const KEYS: &[&str] = &["a", "b", "c", "k", "k1", "k5", "new", "é\"", "", "x", "d", "n", "com.example.service.alpha.timeout", "com.example.service.gamma.timeout", "com.example.service.delta.timeout", "a_member_name_longer_than_thirty_bytes", "big", "configuration_of_the_primary_replica_set"];
 
 struct State {
     slots: Vec<Value>,
@@ -920,7 +927,7 @@ pub fn subs() -> Vec<Sub<'static>> {
 
 pub fn run(ctx: &Ctx) {
     let subs = subs();
-    ctx.search(&subs[0], "random", ctx.n(600_000, 8_000_000), 260, &|src: &mut Src| src.rest().to_vec());
+    ctx.search(&subs[0], "random", ctx.n(2_400_000, 19_200_000), 260, &|src: &mut Src| src.rest().to_vec());
     // bounded-exhaustive: every sequence of <= `depth` operations where each operation is chosen
     // from a finite universe of (slot, path, operation, argument) bytes, over two fixed initial
     // heaps. An operation is encoded in 11 bytes: slot, path depth, 3 path choices, operation,
